@@ -215,6 +215,18 @@ def run(ctx):
     fv = repo.func(VF, "VfsRequest.translate_client_path")
     ctx.check("R3-vfs-delegates", f"{VF}:VfsRequest.translate_client_path", any(norm(c.func) == "request.SmartServerRequest.translate_client_path" for c in calls_in(fv)), "VFS path translation delegates to SmartServerRequest.translate_client_path")
 
+    # R3b: a translation step that unescapes must re-validate the decoded path (encoded separators / dot segments)
+    gv = build_cfg(fv)
+    wv = f"{VF}:VfsRequest.translate_client_path"
+    un = calling(gv, name={"urlutils.unescape", "unescape"})
+    rets_v = [n.id for n in gv.nodes if n.kind == "stmt" and isinstance(n.ast, ast.Return)]
+    if un:
+        first_un = min(un)
+        jp = [j for j in calling(gv, name="urlutils.joinpath", argpred=lambda c: c.args and const_value(c.args[0]) == "/" and len(c.args) > 1 and "unescape" in norm(c.args[1]) or (c.args and const_value(c.args[0]) == "/" and len(c.args) > 1)) if j >= first_un and (j in gv.reach(un) or j in un)]
+        jp = [j for j in jp if any("unescape" in norm(c) or any(norm(a) in {norm(t) for s_ in walk_own(fv) if isinstance(s_, ast.Assign) and "unescape" in norm(s_.value) for t in s_.targets} for a in c.args[1:]) for c in gv.nodes[j].calls() if call_name(c) == "urlutils.joinpath")]
+        ok = bool(jp) and all(gv.always_before(jp, [r])[0] for r in rets_v)
+        ctx.check("R3b-decoded-path-revalidated", wv, ok, "after unescaping, the decoded path is normalised under '/' again (joinpath raises if it climbs out) before it is returned", construct="return str(urlutils.unescape(x))" if not ok else "", message="VfsRequest.translate_client_path unescapes the already validated path and returns it unchecked: an encoded separator or dot segment (..%2Fsecret) is decoded by the transport below the chroot and reaches files outside the served directory")
+
     # ---- R4 -----------------------------------------------------------------
     regs = registrations(repo)
     ctx.require(len(regs) >= 90, f"only {len(regs)} verb registrations found (hand-confirmed: 93)")
